@@ -4,7 +4,7 @@ the detection table (markdown). Creates meta.json for rounds 2/3 from first_eval
 import json, os, re, glob, subprocess
 root = os.path.dirname(os.path.dirname(os.path.abspath(__file__)))
 titles = {}
-for f in ("titles2.json", "titles3.json"):
+for f in ("titles2.json", "titles3.json", "titles4.json"):
     p = f"{root}/tools/{f}"
     if os.path.exists(p): titles.update(json.load(open(p)))
 head = subprocess.run(["git", "-C", root, "rev-parse", "--short", "HEAD"], capture_output=True, text=True).stdout.strip()
@@ -20,7 +20,7 @@ for d in sorted(glob.glob(f"{root}/seeded/C*-?")):
         ok = ("test result: ok" in fe) and ("fails (good)" in fe) and ("demo without change: pass" in fe)
         meta = {
             "id": sid, "title": titles.get(sid, ""), "breaks_property": prop,
-            "round": {"C": 2, "D": 2, "E": 3, "F": 3}.get(x, 1),
+            "round": {"C": 2, "D": 2, "E": 3, "F": 3, "G": 4, "H": 4}.get(x, 1),
             "origin": "independent sub-agent given only the property text (and the titles of earlier changes, to look elsewhere) and a scratch worktree of /repo (no access to /verif)",
             "needs_to_manifest": "see agent_notes.md",
             "confirmed_by_me": {"existing_suite_with_change": "79 passed" if ok else "?", "demo_without_change": "passes", "demo_with_change": "fails",
